@@ -4,6 +4,8 @@ import (
 	"fmt"
 	"math/rand"
 	"time"
+
+	"verif/harness/enc"
 )
 
 // Profile selects which parts of the API a random history exercises.
@@ -19,6 +21,7 @@ type Profile struct {
 	Reload   bool
 	Cascade  bool
 	HostileQ bool // ids and strings starting with "?"
+	Dispatch    bool // rules with conditions and reporting / failing actions
 	MixedEvents bool // events may hold arrays of mixed scalar types (known finding D_UNSORTABLE_EVENT)
 	MaxFacts int
 	Weights  map[string]int
@@ -30,6 +33,9 @@ type Gen struct {
 	// Homogeneous: arrays in generated data hold elements of one scalar type
 	// (what the indexed state's rule index can take in an event).
 	Homogeneous bool
+	// T receives the action / condition scripts the generator invents.
+	T    *enc.Tables
+	nact int
 }
 
 var homogeneous = [][]interface{}{{"x", "y", "tacos"}, {1.0, 2.0, 0.5}, {true, false}}
@@ -169,7 +175,116 @@ func (g *Gen) Pattern() map[string]interface{} {
 	return p
 }
 
+var condKeys = []string{"a", "b", "c"}
+var condVals = []interface{}{1.0, 2.0, "x"}
+
+// smallFact: facts over a narrow value space, so that conditions join.
+func (g *Gen) smallFact() map[string]interface{} {
+	m := map[string]interface{}{}
+	for i, n := 0, 1+g.R.Intn(3); i < n; i++ {
+		m[condKeys[g.R.Intn(3)]] = condVals[g.R.Intn(3)]
+	}
+	return m
+}
+
+func (g *Gen) smallPattern(vars []string) map[string]interface{} {
+	m := map[string]interface{}{}
+	for i, n := 0, 1+g.R.Intn(2); i < n; i++ {
+		if g.R.Intn(3) == 0 {
+			m[condKeys[g.R.Intn(3)]] = condVals[g.R.Intn(3)]
+		} else {
+			m[condKeys[g.R.Intn(3)]] = vars[g.R.Intn(len(vars))]
+		}
+	}
+	return m
+}
+
+// condition draws a rule condition whose result bag does not depend on the
+// order of conjuncts / disjuncts (the value encoding keeps arrays as sets).
+func (g *Gen) condition() map[string]interface{} {
+	vars := []string{"?x", "?y", "?z"}
+	pat := func() map[string]interface{} { return map[string]interface{}{"pattern": g.smallPattern(vars)} }
+	switch g.R.Intn(8) {
+	case 0, 1, 2:
+		return pat()
+	case 3:
+		a, b := pat(), pat()
+		return map[string]interface{}{"and": []interface{}{a, b}}
+	case 4:
+		a, b := pat(), pat()
+		return map[string]interface{}{"or": []interface{}{a, b}}
+	case 5:
+		return map[string]interface{}{"not": pat()}
+	case 6:
+		code := []string{"true", "false", "({z: 7})"}[g.R.Intn(3)]
+		kind := map[string]string{"true": "true", "false": "false", "({z: 7})": "obj"}[code]
+		g.T.NoteCondCode(code, kind)
+		return map[string]interface{}{"code": code}
+	default:
+		return map[string]interface{}{}
+	}
+}
+
+func (g *Gen) action() map[string]interface{} {
+	g.nact++
+	tag := fmt.Sprintf("t%d.%d", g.R.Intn(1000000), g.nact)
+	switch g.R.Intn(6) {
+	case 0:
+		code := fmt.Sprintf("throw 'boom %s'", tag)
+		g.T.NoteAct(code, "throw", tag)
+		return map[string]interface{}{"code": code}
+	case 1:
+		return map[string]interface{}{"code": []string{"1", "2", "3"}[g.R.Intn(3)]}
+	default:
+		code := fmt.Sprintf("({tag:'%s', b:Env.bindings})", tag)
+		g.T.NoteAct(code, "ret", tag)
+		return map[string]interface{}{"code": code}
+	}
+}
+
+func (g *Gen) dispatchRule() map[string]interface{} {
+	var when map[string]interface{}
+	switch g.R.Intn(4) {
+	case 0:
+		when = map[string]interface{}{"wants": []interface{}{"?w"}}
+	case 1:
+		when = map[string]interface{}{"a": "?x"}
+	default:
+		when = g.smallPattern([]string{"?x", "?y"})
+	}
+	r := map[string]interface{}{"when": map[string]interface{}{"pattern": when}}
+	if g.R.Intn(4) > 0 {
+		r["condition"] = g.condition()
+	}
+	if g.R.Intn(3) == 0 {
+		r["action"] = g.action()
+	} else {
+		as := []interface{}{}
+		seen := map[string]bool{}
+		for i, n := 0, 1+g.R.Intn(3); i < n; i++ {
+			a := g.action()
+			if c := a["code"].(string); !seen[c] {
+				seen[c] = true
+				as = append(as, a)
+			}
+		}
+		r["actions"] = as
+	}
+	return r
+}
+
+func (g *Gen) dispatchEvent() map[string]interface{} {
+	m := g.smallFact()
+	if g.R.Intn(3) == 0 {
+		m["wants"] = []interface{}{"x", "y", "tacos"}[:1+g.R.Intn(3)]
+	}
+	return m
+}
+
 func (g *Gen) Rule() map[string]interface{} {
+	if g.P.Dispatch {
+		return g.dispatchRule()
+	}
 	r := map[string]interface{}{
 		"when": map[string]interface{}{"pattern": g.Pattern()},
 	}
@@ -224,6 +339,9 @@ func (g *Gen) Next() Op {
 	switch op.Op {
 	case "AddFact":
 		op.Id, op.Val = id, g.Fact()
+		if g.P.Dispatch {
+			op.Val = g.smallFact()
+		}
 		if g.R.Intn(6) == 0 {
 			op.Id = ""
 		}
@@ -254,6 +372,9 @@ func (g *Gen) Next() Op {
 		g.Homogeneous = !g.P.MixedEvents
 		op.Val = g.Fact()
 		g.Homogeneous = false
+		if g.P.Dispatch {
+			op.Val = g.dispatchEvent()
+		}
 		delete(op.Val, "ttl")
 		delete(op.Val, "expires")
 	case "SetReadOnly":
